@@ -48,12 +48,12 @@ Proof.
 Qed.
 
 Lemma sample_const g o m :
-  (forall r, In r m -> lookup g r = o) -> m <> [] -> hd_error (bound (ovals g m)) = o.
+  (forall r, In r m -> lookup g r = o) -> m <> [] -> hd_error (bound (ovals (EVar g) m)) = o.
 Proof.
   intros H Hne. destruct m as [|r0 m]; [congruence|].
   destruct o as [t|].
   - unfold ovals. simpl. rewrite (H r0); simpl; auto.
-  - assert (G : forall l, (forall r, In r l -> lookup g r = None) -> bound (ovals g l) = []).
+  - assert (G : forall l, (forall r, In r l -> lookup g r = None) -> bound (ovals (EVar g) l) = []).
     { induction l as [|r l IH]; simpl; auto. intros Hl. rewrite (Hl r); simpl; auto. }
     rewrite G; auto.
 Qed.
@@ -84,7 +84,7 @@ Section OneGroup.
     /\ (forall va, In va aggs -> agg_adm (snd va) m (lookup (fst va) row) = true).
   Proof.
     unfold group_row.
-    set (L1 := map (fun g => (g, hd_error (bound (ovals g m)))) gv).
+    set (L1 := map (fun g => (g, hd_error (bound (ovals (EVar g) m)))) gv).
     set (L2 := map (fun va : var * aggspec => (fst va, agg_run (snd va) m)) aggs).
     assert (HL1 : map fst L1 = gv) by (unfold L1; rewrite map_map; simpl; apply map_id).
     assert (HL2 : map fst L2 = map fst aggs) by (unfold L2; rewrite map_map; reflexivity).
@@ -95,7 +95,7 @@ Section OneGroup.
       + destruct (exists_in _ (Hne Egv)) as [r0 Hr0].
         rewrite <- (Hkey r0 Hr0). unfold key_of. apply map_ext_in.
         intros g Hg.
-        rewrite (lookup_entries g (hd_error (bound (ovals g m)))); auto.
+        rewrite (lookup_entries g (hd_error (bound (ovals (EVar g) m)))); auto.
         * apply sample_const; auto.
           intros r Hr. apply key_of_eq with (gv := gv); auto.
           rewrite (Hkey r Hr). symmetry. now apply Hkey.
